@@ -127,6 +127,8 @@ pub struct RunOut {
     pub laggard: Option<(u64, usize, Vec<String>)>,
     /// certificates broadcast by correct nodes that do not pass validation: (sender, summary)
     pub invalid_certs_sent: Vec<(usize, MCert)>,
+    /// datagrams dropped because more than the bounded number were in flight (request storms)
+    pub overflow_dropped: u64,
     pub routes: BTreeMap<(u64, u64, u64), crate::cluster::ShredRoute>,
 }
 
@@ -486,6 +488,7 @@ pub async fn execute(cfg: &RunCfg, rng: &mut SRng) -> RunOut {
         probe,
         laggard: lag_info,
         invalid_certs_sent: std::mem::take(&mut l.invalid_certs_sent),
+        overflow_dropped: cl.net.overflow_dropped(),
         routes: std::mem::take(&mut l.routes),
     }
 }
